@@ -122,9 +122,19 @@ def run_check(pid: str, tier: str, jobs: List[Job], functions: List[str], assump
     # 0. property-specific concrete preparation (model validation etc.)
     if pre is not None:
         try:
-            info = pre()
-            extra.update(info or {})
-            if info and info.get("inconclusive"):
+            info = pre() or {}
+            for path, detail in info.pop("violations", []):
+                violations.append(path)
+                print(f"VIOLATION property={pid} replay={path}", flush=True)
+                print(f"  {detail}", flush=True)
+            for k in ("solver_queries", "solver_seconds"):
+                totals[k] += info.pop("_" + k, 0)
+            pre_states = info.pop("_states", 0)
+            totals["PASS"] += pre_states
+            totals["paths"] += pre_states
+            totals["decisions"] += info.pop("_transitions", 0)
+            extra.update(info)
+            if info.get("inconclusive"):
                 inconclusive.append(str(info["inconclusive"]))
         except Exception as e:  # noqa: BLE001
             inconclusive.append(f"preparation failed: {e!r}")
